@@ -33,6 +33,12 @@ def load(*modnames):
 
 def symbolic_mode(on=True):
     """(re)install the numpy proxy in every loaded pybrops module and switch it on/off"""
-    from . import symnp
+    from . import symnp, stubs
     symnp.install_proxy("pybrops")
     symnp.PROXY.enabled = on
+    # library functions replaced by contract models while running symbolically
+    import scipy.interpolate
+    for name in ("pybrops.popgen.gmap.StandardGeneticMap", "pybrops.popgen.gmap.ExtendedGeneticMap"):
+        mod = sys.modules.get(name)
+        if mod is not None and hasattr(mod, "interp1d"):
+            mod.interp1d = stubs.SymInterp1d if on else scipy.interpolate.interp1d
